@@ -444,7 +444,7 @@ def finalize(merged, tier):
     if tier == "thorough":
         want = want * 2
     got = merged["counters"].get("controllers_enumerated", 0)
-    if got != want:
+    if got < want:      # (shards replayed with debug logging count again)
         merged["inconclusive"].append(f"enumerated {got} (controller, unit) tasks, expected {want}")
 
 
